@@ -33,6 +33,9 @@ Digits(n) == IF n < 10 THEN <<48 + n>> ELSE Digits(n \div 10) \o <<48 + (n % 10)
 NsEncode(p) == Digits(Len(p)) \o <<58>> \o p \o <<44>>
 RECURSIVE NsWire(_)
 NsWire(ps) == IF ps = <<>> THEN <<>> ELSE NsEncode(Head(ps)) \o NsWire(Tail(ps))
+(* every message is within the limit in force for its read (instance maxsize, setmaxsize or per-call maxsize): *)
+(* the recorder only builds such sessions; what an over-long message does is not part of the property         *)
+NsPre(tr) == \A i \in 1..Len(tr.payloads) : Len(tr.payloads[i]) <= tr.limits[i]
 NsGood(tr) == /\ tr.wire = NsWire(tr.payloads)
               /\ tr.read = tr.payloads
               /\ tr.after.e = "ConnectionClosed"      \* reading past the last message: the stream has ended
@@ -45,7 +48,7 @@ Step ==
   /\ LET tr == Traces[tid] IN
      IF tr.kind = "ns"
      THEN /\ l = 1
-          /\ IF NsGood(tr) THEN l' = 2 /\ UNCHANGED <<tid, rbuf, pos, acc>>
+          /\ IF NsGood(tr) \/ ~NsPre(tr) THEN l' = 2 /\ UNCHANGED <<tid, rbuf, pos, acc>>
              ELSE Reject({[wire |-> NsWire(tr.payloads)]})
      ELSE /\ l <= Len(tr.ev)
           /\ LET ev == tr.ev[l] IN
